@@ -640,7 +640,7 @@ func (db *DB) Transaction(fc func(tx *DB) error, opts ...*sql.TxOptions) (err er
 		if !db.DisableNestedTransaction {
 			spID := new(maphash.Hash).Sum64()
 			// keep the savepoint error off db: the caller goes on using db when it swallows the nested error
-			err = db.Session(&Session{}).SavePoint(fmt.Sprintf("sp%d", spID)).Error
+			err = db.Session(&Session{NewDB: true}).SavePoint(fmt.Sprintf("sp%d", spID)).Error
 			if err != nil {
 				return
 			}
